@@ -11,6 +11,7 @@ package main
 
 import (
 	"bytes"
+	"crypto/sha256"
 	"encoding/json"
 	"fmt"
 	"math/rand"
@@ -18,11 +19,13 @@ import (
 	"path/filepath"
 	"runtime"
 	"sort"
+	"strconv"
 	"strings"
 	"sync"
 	"testing"
 	"time"
 
+	zxcvbn "github.com/nbutton23/zxcvbn-go"
 	"github.com/whawty/auth/verifconcrete"
 
 	lib "github.com/whawty/auth/store"
@@ -259,6 +262,8 @@ type fileSt struct {
 	Pw      string `json:"pw"`
 	Set     uint   `json:"set"`
 	Adm     bool   `json:"adm"`
+	Aux     string `json:"aux,omitempty"`  // projection only: orig | none | other
+	Time    int64  `json:"time,omitempty"` // projection only
 }
 
 type step struct {
@@ -362,10 +367,19 @@ func (r *runner) project() (map[string]fileSt, bool, bool) {
 		ext := filepath.Ext(e.Name())
 		u := strings.TrimSuffix(e.Name(), ext)
 		b, _ := os.ReadFile(filepath.Join(r.base, e.Name()))
-		line, _ := concrete.SplitFile(b)
+		line, rest := concrete.SplitFile(b)
 		f := fileSt{Present: true, Adm: ext == ".admin", Pw: "?"}
+		switch string(rest) {
+		case "totp: QUJD\n":
+			f.Aux = "orig"
+		case "":
+			f.Aux = "none"
+		default:
+			f.Aux = "other"
+		}
 		if recd, err := concrete.ParseLine(line); err == nil {
 			f.Set = recd.Param
+			f.Time = recd.Time
 			if ps, ok := r.sets[recd.Param]; ok && ps.FormatID() == recd.Format {
 				for tag, pw := range r.sc.Passwords {
 					if bytes.Equal(ps.Digest([]byte(pw), recd.Salt), recd.Digest) {
@@ -483,6 +497,8 @@ func (r *runner) run(dir string) scenResult {
 	reset := base("reset")
 	reset["files"] = sc.Files
 	reset["k"] = sc.Name
+	reset["dirsha"] = dirSha(r.base)
+	reset["policyok"] = r.policyOK()
 	rec.add(reset)
 
 	gt.newGeneration()
@@ -616,6 +632,7 @@ func (r *runner) free() {
 	m["checkok"] = adminOK
 	m["tmpempty"] = tmpEmpty
 	m["checkerr"] = errStr(r.st.dir.Check())
+	m["dirsha"] = dirSha(r.base)
 	rec.add(m)
 	gt.disarm("disp.idle")
 }
@@ -658,6 +675,57 @@ func (r *runner) load(s step) {
 }
 
 func (r *runner) hup(s step) {}
+
+// dirSha is a byte-level fingerprint of the directory (names, modes, contents; .tmp if empty ignored).
+func dirSha(dir string) string {
+	snap := concrete.Snapshot(dir)
+	keys := []string{}
+	for k, v := range snap {
+		if k == ".tmp" && v == "dir" || k == "." {
+			continue
+		}
+		keys = append(keys, k+"="+v)
+	}
+	sort.Strings(keys)
+	return fmt.Sprintf("%x", sha256.Sum256([]byte(strings.Join(keys, "\n"))))[:16]
+}
+
+// policyOK evaluates the scenario's policy condition independently of policy.go: which of the
+// scenario's passwords (for which of its user names) satisfy it.
+func (r *runner) policyOK() []string {
+	out := []string{}
+	for tag, pw := range r.sc.Passwords {
+		if tag == "" {
+			continue
+		}
+		ok, first := true, true
+		if r.sc.PolicyType == "zxcvbn" {
+			f := strings.Fields(r.sc.PolicyCond)
+			thr, _ := strconv.ParseFloat(f[2], 64)
+			for u := range r.sc.Files {
+				sc := zxcvbn.PasswordStrength(pw, []string{u, "whawty"})
+				var v float64
+				switch f[0] {
+				case "score":
+					v = float64(sc.Score)
+				case "entropy":
+					v = sc.Entropy
+				case "time":
+					v = sc.CrackTime
+				}
+				if !first && ok != (v >= thr) {
+					panic("scenario password " + tag + " has a user-dependent policy verdict")
+				}
+				ok, first = v >= thr, false
+			}
+		}
+		if ok {
+			out = append(out, tag)
+		}
+	}
+	sort.Strings(out)
+	return out
+}
 
 func TestVerifAgentScenarios(t *testing.T) {
 	in, out := os.Getenv("VERIF_IN"), os.Getenv("VERIF_OUT")
